@@ -28,6 +28,7 @@ type Target struct {
 type TargetsCase struct {
 	Targets []Target `json:"targets"`
 	ViaRun  bool     `json:"via_run"` // `taskctl run a b` instead of `taskctl a b`
+	RunTask bool     `json:"run_task,omitempty"` // `taskctl run task a b` (tasks only)
 }
 
 func runTargets(c TargetsCase, dir string) (vs []Violation) {
@@ -70,7 +71,9 @@ func runTargets(c TargetsCase, dir string) (vs []Violation) {
 	os.WriteFile(filepath.Join(dir, "t.yaml"), []byte(gen.YAML(cfg)), 0o644)
 	env := cli.Env{Bin: drv.Bin(), Dir: dir, Home: filepath.Join(dir, "home")}
 	args := []string{"-c", "t.yaml", "--raw"}
-	if c.ViaRun {
+	if c.RunTask {
+		args = append(args, "run", "task")
+	} else if c.ViaRun {
 		args = append(args, "run")
 	}
 	r := env.Run(append(args, argv...)...)
@@ -177,6 +180,15 @@ func TestTargets(t *testing.T) {
 				tg.Allow = rapid.IntRange(0, 3).Draw(rt, "allow") == 0
 			}
 			c.Targets = append(c.Targets, tg)
+		}
+		allTasks := true
+		for _, tg := range c.Targets {
+			if tg.Pipeline {
+				allTasks = false
+			}
+		}
+		if allTasks && rapid.IntRange(0, 2).Draw(rt, "run-task-subcommand") == 0 {
+			c.RunTask = true
 		}
 		k++
 		dir := filepath.Join(root, fmt.Sprint("c", k))
